@@ -1139,6 +1139,112 @@ def foreign_sweep(ctx, rnd, reported, want_terms=True):
     return terms, metas
 
 
+# ------------------------------------------------------------------------------------------------
+# the stdout target: RecordWriter("avro://-") in a child interpreter, every close path
+
+STDOUT_CHILD = r"""
+import json, sys
+sys.path.insert(0, sys.argv[2]); sys.path.insert(0, sys.argv[1])
+from flow.record import RecordDescriptor, RecordWriter
+from vf.props import c19
+case = json.loads(sys.argv[3]); mode = sys.argv[4]
+Ds = [RecordDescriptor(n, [tuple(f) for f in fs]) for n, fs in case["descs"]]
+outs = []
+def ops(w):
+    for op in case["ops"]:
+        try:
+            if op[0] == "f":
+                w.flush()
+            else:
+                w.write(c19.build_record(Ds[op[1]], [tuple(f) for f in case["descs"][op[1]][1]], op[2]))
+            outs.append("ok")
+        except Exception as e:
+            outs.append(c19.err_kind(e))
+close = "ok"
+try:
+    if mode == "with":
+        with RecordWriter("avro://-") as w:
+            ops(w)
+    else:
+        w = RecordWriter("avro://-")
+        ops(w)
+        if mode == "flush_close":
+            w.flush()
+        w.close()
+except Exception as e:
+    close = c19.err_kind(e)
+sys.stderr.write("C19OUTS " + json.dumps([outs, close]) + "\n")
+"""
+
+
+def stdout_cases():
+    rnd = random.Random(3)
+    res = lambda: reserved_specs(rnd)  # noqa: E731
+    d = ["test/stdout", [["uint32", "n"], ["uri", "u"], ["filesize", "size"]]]
+    rec = lambda i: ["w", 0, [in_value(i), in_value("http://example.com/%d" % i), in_value(1 << 40)] + res()]  # noqa: E731
+    bad = ["w", 0, [in_value(2**31), in_value("x"), in_value(1)] + res()]
+    return [
+        dict(descs=[d], ops=[rec(i) for i in range(5)]),
+        dict(descs=[d], ops=[rec(0)]),
+        dict(descs=[d], ops=[rec(0), bad, rec(1), ["f"], rec(2)]),
+        dict(descs=[d], ops=[]),
+        dict(descs=[["x", []]], ops=[["w", 0, res()], ["w", 0, res()]]),
+        dict(descs=[["test/t", [["datetime", "ts"], ["float", "f"], ["bytes", "b"]]]],
+             ops=[["w", 0, [in_value(dt_values()[9]), in_value(16777217.0), in_value(b"\x00\xff")] + res()],
+                  ["w", 0, [in_value(None), in_value(None), in_value(None)] + res()]]),
+    ]
+
+
+def run_stdout_session(workdir, case, mode, idx):
+    """the session in a child interpreter writing to avro://- ; stdout is read back like a file"""
+    import subprocess
+    from flow.record import RecordDescriptor
+    p = subprocess.run([core.PY, "-c", STDOUT_CHILD, str(core.REPO), str(core.VERIF / "tools"), json.dumps(case), mode],
+                       stdout=subprocess.PIPE, stderr=subprocess.PIPE, env=core.env_for_repo(), timeout=120)
+    m = [ln for ln in p.stderr.decode(errors="replace").splitlines() if ln.startswith("C19OUTS ")]
+    if p.returncode != 0 or not m:
+        raise RuntimeError("stdout child failed (rc=%s): %s" % (p.returncode, p.stderr.decode(errors="replace")[-400:]))
+    outs, close = json.loads(m[-1][len("C19OUTS "):])
+    path = os.path.join(str(workdir), "o%d.avro" % idx)
+    with open(path, "wb") as fh:
+        fh.write(p.stdout)
+    Ds = [RecordDescriptor(n, [tuple(f) for f in fs]) for n, fs in case["descs"]]
+    written, meant = [], []
+    for op in case["ops"]:
+        if op[0] == "f":
+            written.append(None)
+            meant.append(None)
+        else:
+            fields = [tuple(f) for f in case["descs"][op[1]][1]]
+            r = build_record(Ds[op[1]], fields, op[2])
+            written.append(packed_obs(r, fields))
+            meant.append(attr_obs(r, fields))
+    flow, raw = read_back(path)
+    return dict(outs=outs, close=close, written=written, meant=meant, flow=flow, raw=raw, path=path, stdout_bytes=len(p.stdout))
+
+
+def stdout_sweep(ctx, kf_by_cls, reported):
+    """RecordWriter('avro://-') x close path (close only / flush + close / with-block) x sessions (several records, one,
+    a refusal in the middle, never written, field-less, timestamps/floats/None): what arrives on stdout must be a
+    container holding exactly the accepted records"""
+    import tempfile
+    tmpd = tempfile.mkdtemp(prefix="c19o.", dir=str(ctx.work))
+    n = 0
+    for ci, case in enumerate(stdout_cases()):
+        for mode in ("close", "flush_close", "with"):
+            res = run_stdout_session(tmpd, case, mode, n % 20)
+            n += 1
+            problems, cls = oracle(case, res)
+            ctx.count_case(("stdout", mode, ci), nontrivial=any(is_write(op) for op in case["ops"]))
+            for kind, text in problems:
+                if kind == "violation" and not reported[0]:
+                    reported[0] = True
+                    ctx.violation("C19 fails on the implementation, target stdout (avro://-), close path %r: %s (%d bytes on stdout)" % (
+                        mode, text, res["stdout_bytes"]),
+                        dict(kind="stdout-session", case=case, mode=mode, outs=res["outs"], close=res["close"], flow=_j(res["flow"]), problem=text))
+    ctx.coverage["stdout_sessions"] = n
+
+
 def search(ctx, reason):
     """the proof / translator broke: look for a concrete failing input on the implementation"""
     kf_by_cls = {f["match"].get("cls"): f for f in core.known_for(PID)}
@@ -1149,6 +1255,8 @@ def search(ctx, reason):
         property_sweep(ctx, kf_by_cls, cases, reported, want_terms=False)
         if not reported[0]:
             foreign_sweep(ctx, rnd, reported, want_terms=False)
+        if not reported[0]:
+            stdout_sweep(ctx, kf_by_cls, reported)
     except Exception as e:  # noqa
         ctx.notes.append("search raised %s: %s" % (type(e).__name__, e))
     if reported[0]:
@@ -1170,7 +1278,8 @@ def run(ctx):
         "members' values), field-less descriptors, sessions of several blocks, "
         "(c) random sessions mixing representable and unrepresentable records, second types and flushes; "
         "(d) files written by fastavro directly (plain-long datetime columns around the reader's guard, schemas "
-        "without doc). distinct = distinct (field types of the descriptors, per operation: descriptor, decision, "
+        "without doc); (e) the stdout target avro://- in a child interpreter x close path (close only, flush+close, "
+        "with-block) x sessions incl. never written, output read back from the captured stdout. distinct = distinct (field types of the descriptors, per operation: descriptor, decision, "
         "value kinds and integer bit lengths); non-trivial = the session writes at least one record")
     ok = core.standard_proof_stage(ctx, ["props/C19.vo"], "C19", THEOREMS, search_fn=search, gens=["gen_avro"])
     ctx.assumptions += [
@@ -1209,6 +1318,7 @@ def run(ctx):
     cases = all_cases(ctx, rnd)
     terms, metas, reproduced = property_sweep(ctx, kf_by_cls, cases, reported)
     fterms, fmetas = foreign_sweep(ctx, rnd, reported)
+    stdout_sweep(ctx, kf_by_cls, reported)
     nsess = len(terms)
     terms += fterms
     metas += [(len(cases) + i, o) for i, o in fmetas]
@@ -1245,6 +1355,15 @@ def replay(obj):
         import shutil
         shutil.rmtree(work, ignore_errors=True)
         return 1 if bad else 0
+    if kind == "stdout-session":
+        work = tempfile.mkdtemp(prefix="c19replay.", dir=str(core.WORK))
+        res = run_stdout_session(work, obj["case"], obj["mode"], 0)
+        problems, cls = oracle(obj["case"], res)
+        print("replay (stdout, %s): decisions %s close %s, %d bytes, read %s -> %s" % (
+            obj["mode"], res["outs"], res["close"], res["stdout_bytes"], res["flow"].get("recs", res["flow"]), problems or "holds"))
+        import shutil
+        shutil.rmtree(work, ignore_errors=True)
+        return 1 if any(k == "violation" for k, _ in problems) else 0
     if kind == "foreign":
         work = tempfile.mkdtemp(prefix="c19replay.", dir=str(core.WORK))
         recs = [{k: mk_value(v) for k, v in r.items()} for r in obj["recs"]]
